@@ -27,6 +27,7 @@ type Transport struct {
 	compressConfig   compress.Config
 	writeWindowBuf   *bytes.Buffer
 	writeWindowBufMu sync.Mutex
+	writeMu          sync.Mutex
 	readWindowBuf    *bytes.Buffer
 	readWindowBufMu  sync.Mutex
 
@@ -96,6 +97,9 @@ func (t *Transport) Read() ([]byte, error) {
 
 // Writeは、１メッセージ分のデータを書き込みます。
 func (t *Transport) Write(bs []byte) error {
+	// Writerの取得からCloseまでを直列化します（gorillaのNextWriterは同時書き込みを許容しません）。
+	t.writeMu.Lock()
+	defer t.writeMu.Unlock()
 	wr, err := t.wsconn.Writer(t.ctx, MessageBinary)
 	if err != nil {
 		return fmt.Errorf("get writer: %w", err)
